@@ -499,8 +499,9 @@ package thrift
 //@ spec (*BinaryProtocol).ModifyI32
 //@   props C19 C05
 //@   requires pos: 0 <= pos && pos < 1<<40
-//@   ensures short: len(p.Buf) < pos + 4 ==> r0 != nil
-//@   ensures ok: len(p.Buf) >= pos + 4 ==> r0 == nil && be32(p.Buf, pos) == uint32(value) && len(p.Buf) == old(len(p.Buf)) && same(p.Buf, old(p.Buf))
+//@   ensures short: old(len(p.Buf)) < pos + 4 ==> r0 != nil
+//@   ensures ok: old(len(p.Buf)) >= pos + 4 ==> r0 == nil && be32(p.Buf, pos) == uint32(value)
+//@   ensures hdr: len(p.Buf) == old(len(p.Buf)) && same(p.Buf, old(p.Buf))
 //@   ensures others: forall i :: 0 <= i && i < len(p.Buf) && (i < pos || i >= pos + 4) ==> p.Buf[i] == old(p.Buf[i])
 //@   ensures read: p.Read == old(p.Read)
 //@   modifies p.Buf, p.Buf[pos:pos+4] if len(p.Buf) >= pos + 4
